@@ -402,6 +402,44 @@ fn fn3(r: evenio::event::ReceiverMut<G1>, s: Sender<(G0, Spawn)>) {
     drop(owned);
 }
 
+/// a `#[derive(HandlerParam)]` struct: init / get / refresh_archetype / remove_archetype are forwarded to each field by the macro
+#[derive(evenio::handler::HandlerParam)]
+struct DerivedParam<'a> {
+    a: Fetcher<'a, (EntityId, &'static K0)>,
+    b: Fetcher<'a, (EntityId, &'static K1)>,
+}
+
+fn render_two(
+    it1: impl Iterator<Item = (EntityId, u64)>,
+    it2: impl Iterator<Item = (EntityId, u64)>,
+    c1: &str,
+    c2: &str,
+) {
+    let mut items: Vec<String> = it1.map(|(e, v)| format!("({},{c1}={v},)", ord_of(e))).collect();
+    items.sort();
+    trace(format!(" it1 [{}] len={}", items.join(";"), items.len()));
+    let mut items: Vec<String> = it2.map(|(e, v)| format!("({},{c2}={v},)", ord_of(e))).collect();
+    items.sort();
+    trace(format!(" it2 [{}] len={}", items.join(";"), items.len()));
+}
+
+fn fn4(r: Receiver<G0>, mut p: DerivedParam) {
+    trace(format!("h fn4 G0(s{})", r.event.0.serial));
+    render_two(p.a.iter_mut().map(|(e, k)| (e, k.0)), p.b.iter_mut().map(|(e, k)| (e, k.v)), "r0", "r1");
+}
+
+/// a `#[derive(Query)]` struct, used through the tuple `HandlerParam` impl (parameters nested in a tuple)
+#[derive(evenio::query::Query)]
+struct DerivedQuery<'a> {
+    e: EntityId,
+    k: &'a K0,
+}
+
+fn fn5(r: Receiver<G0>, (mut a, mut b): (Fetcher<DerivedQuery>, Fetcher<(EntityId, &'static K1)>)) {
+    trace(format!("h fn5 G0(s{})", r.event.0.serial));
+    render_two(a.iter_mut().map(|q| (q.e, q.k.0)), b.iter_mut().map(|(e, k)| (e, k.v)), "r0", "r1");
+}
+
 fn short_name(n: &str) -> &str {
     n.rsplit("::").next().unwrap_or(n)
 }
@@ -655,6 +693,8 @@ impl Exec {
                     "fn1" => add!(fn1),
                     "fn2" => add!(fn2),
                     "fn3" => add!(fn3),
+                    "fn4" => add!(fn4),
+                    "fn5" => add!(fn5),
                     _ => return Err(bad()),
                 };
                 let after = w.handlers().iter().count();
